@@ -518,6 +518,7 @@ static bool the_callback(const char *filename, const void *data) {
   }
   if (!accept) R.fired["veto"]++;
   log_event(accept ? "cb_accept" : "cb_reject", fn, data_ok ? 1 : 0, 0);
+  errno = en(errno, true);      // a caller's callback may leave anything in errno (it looked for a signature file, ...)
   return accept;
 }
 static void cb_setup(const json &op, CbCtx &c) {
@@ -808,6 +809,7 @@ static json exec_op(TaskCtx *t, const json &op) {
     econf_err rc; { LibCall L; rc = econf_writeFile(kf, dir.c(), name.c()); }
     r["rc"] = (int)rc;
     if (rc == ECONF_SUCCESS && op.value("readback", false)) { std::string c; if (read_whole(dir.s + "/" + name.s, c)) r["bytes"] = J(c); }
+    if (rc == ECONF_SUCCESS) { struct stat wsb; if (__real_stat((dir.s + "/" + name.s).c_str(), &wsb) == 0) r["mode"] = (int)(wsb.st_mode & 07777); }
   } else if (o == "getGroups") {
     econf_file *kf = slot(t, op, "k"); size_t n = 0; char **g = nullptr;
     econf_err rc; { LibCall L; rc = econf_getGroups(kf, &n, &g); }
@@ -1013,6 +1015,7 @@ extern "C" void sim_hang(void) {
 
 static void normalise_library_state() {
   // every run starts from the same process-wide library state
+  umask(022);
   TaskCtx boot; tc = &boot; boot.op = -1;
 #pragma GCC diagnostic push
 #pragma GCC diagnostic ignored "-Wdeprecated-declarations"
@@ -1125,6 +1128,7 @@ static json run_plan(const json &plan) {
   }
   out["n_events"] = R.ev.size();
   if (R.n_errno_noise) R.fired["errno_noise"] = R.n_errno_noise;
+  { mode_t um = umask(022); umask(um); out["umask_after"] = (int)um; }      // process-wide state the library has no business changing
   json fj = json::object(); for (auto &f : R.fired) fj[f.first] = f.second; out["fired"] = fj;
   // ---- ledger conservation
   if (R.ledger_on) {
